@@ -205,6 +205,24 @@ Section Sessions.
     assert (Inv : run_inv fk s') by (apply fold_run_inv; auto; eapply run_sessions_inv; eauto; apply run_inv_init).
     destruct Inv as [_ [_ [_ [Hs _]]]]. apply safe_consistent; auto.
   Qed.
+
+  (* What the next session's specification is seeded with.  restart_pool takes the surviving contents
+     themselves (the crash world); by the theorem above, read at l := the world itself, that world is —
+     database by database — db_eq to r_snap of the record the recovery reported (or everything is empty
+     when it reported no flush): seeding from the reported record's snapshot would give the same maps. *)
+  Theorem pool_restart_seed ss s h k o s2 :
+    sessions_avoid ss = true -> run_sessions fk scale run_init ss = Some s ->
+    history_avoids fk h = true ->
+    let s1 := fold_left (run_step fk scale) h s in
+    restart_pool fk s1 k o = Some s2 ->
+    sp_dbs (rs_spec s2) = crash (rs_log s1) k /\
+    crash_consistent fk (rs_recs s1) k (crash (rs_log s1) k) (crash (rs_log s1) k).
+  Proof.
+    intros Ha E Hh s1 R. split.
+    - unfold restart_pool in R. destruct (check_synced fk (crash (rs_log s1) k)); try discriminate.
+      inversion R; subst. reflexivity.
+    - apply (pool_sessions_crash_consistent ss s h k); auto. apply lists_world_self. apply crash_nodup.
+  Qed.
 End Sessions.
 
 (* ------------------------------------------------------------------ the flagged producer, two sessions *)
